@@ -52,6 +52,14 @@ type WGS struct {
 	X string        `valid:"either=1"`
 	Y string        `valid:"either=1"`
 }
+
+// group objects FOLLOWED by ordinary rules: the group clauses of N and of the elements of L must still come last
+type WGO struct {
+	N WG     `valid:"exist"`
+	L []WG   `valid:"exist"`
+	S string `valid:"to=1~2|M7"`
+	I int    `valid:"le=3|M8"`
+}
 type WG1 struct {
 	X string `valid:"either=7"`
 	A int    `valid:"botheq=8"`
